@@ -1770,8 +1770,14 @@ def implied_facts(guards):
             if tag(x) == "filter" and rel in (("eq", 1), ("ne", (0,))):
                 # Some(..) came out of the filter: the receiver was Some and the predicate held
                 facts |= implied_facts([(("discr", x[1]), ("eq", 1)), (x[2], ("eq", 1))])
-            if tag(x) == "call" and x[1].endswith("checked_sub") and rel[0] == "eq":
-                facts.add(("cmp", "Le", x[2][1], x[2][0]) if rel[1] == 1 else ("cmp", "Lt", x[2][0], x[2][1]))
+            if tag(x) == "call" and x[1].endswith("checked_sub") and (rel[0] == "eq" or rel in (("ne", (0,)), ("ne", (1,)))):
+                some = (rel == ("eq", 1)) or (rel == ("ne", (0,)))
+                if some:
+                    facts.add(("cmp", "Le", x[2][1], x[2][0]))
+                    facts.add(("cmp", "Ge", x[2][0], x[2][1]))
+                else:
+                    facts.add(("cmp", "Lt", x[2][0], x[2][1]))
+                    facts.add(("cmp", "Gt", x[2][1], x[2][0]))
         elif t == "is" and truth is not None:
             facts.add(("is", cond[1], cond[2], truth))
         elif truth is not None:
